@@ -171,6 +171,21 @@ PROPS["C01"] = {
     "assumptions": [TIME_RANGE, "distinct write times on the row (the property's precondition)", "the expected row is the documented outcome (C02's oracle), so equal results for all merge orders and groupings follow from equality with it"],
 }
 
+PROPS["C15"] = {
+    "harnesses": [
+        {"pkg": ".", "dir": "s3db", "entry": "VerifH_C02_history",
+         "quick": {"params": "stmts=2,writers=2,retry=1,nulls=0", "workers": 16, "timeout": 1800},
+         "thorough": {"params": "stmts=3,writers=2,retry=1,nulls=0", "workers": 16, "timeout": 14000}},
+        {"pkg": "sqlite", "dir": "sqlite", "entry": "VerifH_C15_conn", "extra": [("s3db_export", ".")], "no_native": True,
+         "quick": {"params": "steps=4", "workers": 16, "timeout": 1800},
+         "thorough": {"params": "steps=5", "workers": 16, "timeout": 7200}},
+    ],
+    "bounds": {"quick": "2 symbolic statements on one key over 2 writers plus a byte-identical retry (same write_time and values) of either of them, re-executed after any later statement on any writer; write times arbitrary (including decreasing); merged row compared with the documented outcome",
+               "thorough": "3 statements + retry"},
+    "outside": "the s3db_conn attribute handling (sqlite layer) until the sqlite harness is built; time.Parse",
+    "assumptions": [TIME_RANGE],
+}
+
 # Properties not (yet) claimed, each with the reason.  Kept current by hand.
 NOT_APPLICABLE = {
     "C%02d" % i: "check not built yet in this session (breadth-first build order, DESIGN §9); no claim is made" for i in range(1, 21)
